@@ -106,6 +106,40 @@ theorem fs_vacant_drop_leaves_nothing (ops : List Op) (i : Nat)
   · obtain ⟨_, _, _, _, h, _⟩ := hB; rw [hc] at h; cases h
   · obtain ⟨_, _, h, _⟩ := hC; rw [hc] at h; cases h
 
+/-- **A failed insert leaves the id vacant and nothing behind**: after any history, an insert
+(through a vacant entry or through `try_insert`) of a key whose serialisation fails after a partial
+write answers `err`, every file is what it was before, and the id can still be inserted. -/
+theorem fs_failed_insert_leaves_nothing (ops : List Op) (i : Nat) (k k' : UInt64)
+    (hc : (Spec.run {} ops).2.cur = none) (hi : (Spec.run {} ops).2.m i = none) :
+    let s := (Fs.run true {} ops).2
+    (Fs.run true s [.entry i, .insertFail k, .tryInsertFail i k, .sget i, .tryInsert i k', .sget i]).1
+      = [.vac, .err, .err, .none, .ok, .key k'] ∧
+    ∀ j, (Fs.run true s [.entry i, .insertFail k, .tryInsertFail i k]).2.file j = s.file j := by
+  intro s
+  have h0 := (fs_refines_map ops).2
+  obtain ⟨h1, _⟩ := fs_run_sim h0 [.entry i, .insertFail k, .tryInsertFail i k, .sget i, .tryInsert i k', .sget i]
+  obtain ⟨_, h2⟩ := fs_run_sim h0 [.entry i, .insertFail k, .tryInsertFail i k]
+  cases ht : (Spec.run {} ops).2 with
+  | mk m cur =>
+    rw [ht] at hc hi h1 h2 h0
+    simp only at hc hi
+    subst hc
+    have hs1 : (Spec.run ⟨m, none⟩ [.entry i, .insertFail k, .tryInsertFail i k, .sget i, .tryInsert i k', .sget i]).1
+        = [.vac, .err, .err, .none, .ok, .key k'] := by
+      simp [Spec.run, Spec.step, hi, upd]
+    have hs2 : (Spec.run ⟨m, none⟩ [.entry i, .insertFail k, .tryInsertFail i k]).2 = ⟨m, none⟩ := by
+      simp [Spec.run, Spec.step, hi]
+    rw [hs1] at h1
+    rw [hs2] at h2
+    refine ⟨h1, fun j => ?_⟩
+    obtain ⟨_, hA | hB | hC⟩ := h2
+    · obtain ⟨_, hA' | hB' | hC'⟩ := h0
+      · rw [hA.2.2 j, hA'.2.2 j]
+      · obtain ⟨_, _, _, _, h, _⟩ := hB'; cases h
+      · obtain ⟨_, _, h, _⟩ := hC'; cases h
+    · obtain ⟨_, _, _, _, h, _⟩ := hB; cases h
+    · obtain ⟨_, _, h, _⟩ := hC; cases h
+
 /-- **Reopening shows the same contents**: `Store::open` on the same directory changes nothing. -/
 theorem fs_reopen_same (s : Fs) (h : s.cur = none) : s.step true .reopen = (.ok, s) := by
   simp [Fs.step, h]
@@ -140,6 +174,9 @@ theorem spec_remove_then_vacant (t : Spec) (i : Nat) (k : UInt64) (hc : t.cur = 
 /-- a concrete non-trivial history: the refinement's conclusion is about real answers -/
 example : (Fs.run true {} [.tryInsert 0 24, .entry 0, .get, .get, .remove, .entry 0, .drop, .sget 0]).1
     = [.ok, .occ, .key 24, .key 24, .key 24, .vac, .ok, .none] := by decide
+
+example : (Fs.run true {} [.tryInsertFail 0 24, .sget 0, .entry 0, .insertFail 7, .entry 0, .insert 300, .sget 0]).1
+    = [.err, .none, .vac, .err, .vac, .ok, .key 300] := by decide
 
 example : (Mem.run {} [.entry 1, .insert 65536, .tryInsert 1 3, .sremove 1, .sget 1]).1
     = [.vac, .ok, .exists, .key 65536, .none] := by decide
